@@ -1,0 +1,44 @@
+//go:build verif
+
+// Contracts for package rest (distributor), checked by /verif/govc (see /verif/DESIGN.md, C15).
+// This file contains no code: only structured //@ comments keyed by function.
+
+package rest
+
+//@ func (*Distributor).distributeForLog
+//@   returns (err)
+//@   let sent  := n_do == old(n_do) + 1
+//@   let asked := n_glc == old(n_glc) + 1
+//@   requires d != nil && d.witness != nil && d.witSigV != nil && d.client != nil && l.Verifier != nil
+//@   requires counterDistRestAttempt != nil && counterDistRestSuccess != nil && counterDistRestAttempt != counterDistRestSuccess
+//@   modifies n_ro, ro_err, n_gl, gl_err, gl_val, gl_h, n_glc, glc_id, glc_out, glc_err, cnt
+//@   modifies req_method, req_url, req_body, rdr_bytes, n_do, do_method, do_url, do_body, do_err, do_status, do_final_method, rd_buf
+//@   ghostmodifies n_dfl, n_dfl_fail
+//@   ensures[ghost] n_dfl == old(n_dfl) + 1 && n_dfl_fail == old(n_dfl_fail) + (err != nil ? 1 : 0)
+//@   // the witness is asked once, for this log's ID; at most one request goes out
+//@   ensures[C15.1,C12.dist] asked && glc_id == l.ID && n_do <= old(n_do) + 1
+//@   // what is sent: a PUT of exactly the witness's bytes, to the path naming this log's ID and the witness key's name ...
+//@   ensures[C15.2,C12.dist] sent ==> do_method == "PUT" && do_body == glc_out && glc_err == nil
+//@   ensures[C15.2,C12.dist] sent ==> do_url == urlStr(d.baseURL ++ "/distributor/v0/logs/" ++ l.ID ++ "/byWitness/" ++ pathEsc(vname(d.witSigV)) ++ "/checkpoint")
+//@   // ... and only after it verified under the log's key and origin with exactly two verified signatures: the log's and the witness's
+//@   ensures[C15.3] sent ==> parsesAs2(glc_out, l.Origin, l.Verifier, d.witSigV) && nVerified2(glc_out, l.Verifier, d.witSigV) == 2
+//@   // every failing step is reported
+//@   ensures[C15.4] glc_err != nil ==> err != nil && !sent
+//@   ensures[C15.4] sent && do_err != nil ==> err != nil
+//@   ensures[C15.4] err == nil ==> sent && do_err == nil && do_status == 200 && do_final_method == "PUT"
+//@   // the success counter moves exactly on success
+//@   ensures[C15.5] cnt[counterDistRestSuccess][l.ID] == old(cnt[counterDistRestSuccess][l.ID]) + (err == nil ? 1 : 0)
+
+//@ func (*Distributor).DistributeOnce
+//@   returns (err)
+//@   requires d != nil && d.witness != nil && d.witSigV != nil && d.client != nil
+//@   requires counterDistRestAttempt != nil && counterDistRestSuccess != nil && counterDistRestAttempt != counterDistRestSuccess
+//@   requires forall j int :: 0 <= j && j < len(d.logs) ==> d.logs[j].Verifier != nil
+//@   modifies n_ro, ro_err, n_gl, gl_err, gl_val, gl_h, n_glc, glc_id, glc_out, glc_err, cnt
+//@   modifies req_method, req_url, req_body, rdr_bytes, n_do, do_method, do_url, do_body, do_err, do_status, do_final_method, rd_buf, n_dfl, n_dfl_fail
+//@   // every configured log is attempted (a failure does not stop the others), and the result reports whether any failed
+//@   ensures[C15.6] n_dfl == old(n_dfl) + len(d.logs)
+//@   ensures[C15.6] (err != nil) == (n_dfl_fail != old(n_dfl_fail))
+//@   invariant#1 0 <= $i && $i <= len(d.logs) && n_dfl == old(n_dfl) + $i && numErrs == n_dfl_fail - old(n_dfl_fail) && 0 <= numErrs && numErrs <= $i
+//@   invariant#1 forall j int :: 0 <= j && j < len(d.logs) ==> d.logs[j].Verifier != nil
+//@   decreases#1 len(d.logs) - $i
